@@ -663,6 +663,94 @@ def stage_split_fields(ctx: Ctx):
     ctx.correspondence('models/Arglikes.v kw_pos / guard_refuses == merged source order of args+keywords and the refusal of keyword insertions by real put_slice', len(aterms), [ameta[k] for k in failed])
 
 
+def stage_with_items_and_names(ctx: Ctx):
+    """deterministic: (a) With.items where items are parenthesized tuples (a lone tuple item needs grouping parentheses or it reads as several items): every deletion /
+    cut through every entry point; (b) the optional primitive fields of import aliases (asname) and other `as` names when the names themselves contain the letters 'as':
+    set / change / delete. Judged against Python list semantics / the single changed field, on the re-parsed source and on the live tree."""
+    import fst
+    import itertools
+    for head, items in itertools.product(('with', 'async with'), (['(a, b)', 'c'], ['c', '(a, b)'], ['(a, b)', '(c, d)'], ['(a, b)', 'c as d'], ['x', '(a, b)', 'y'], ['(a, b)', '(c,)', 'e'])):
+        pre = 'async def f():\n    ' if head.startswith('async') else ''
+        for parens in (False, True):
+            src = pre + f'{head} ' + ('(' if parens else '') + ', '.join(items) + (')' if parens else '') + ': pass\n'
+            try:
+                ast.parse(src)
+            except SyntaxError:
+                continue
+            n = len(items)
+            for i in range(n):
+                for j in range(i + 1, n + 1):
+                    if j - i == n:
+                        continue
+                    for ep in ('put_slice_none', 'view_del', 'subview_remove', 'cut', 'child_remove', 'put_none'):
+                        if ep in ('child_remove', 'put_none') and j - i != 1:
+                            continue
+                        m = fst.FST(src, 'exec')
+                        w = m.body[0].body[0] if pre else m.body[0]
+                        desc = {'src': src, 'start': i, 'stop': j, 'entry': ep}
+                        try:
+                            if ep == 'put_slice_none':
+                                w.put_slice(None, i, j, 'items')
+                            elif ep == 'view_del':
+                                del w.items[i:j]
+                            elif ep == 'subview_remove':
+                                w.items[i:j].remove()
+                            elif ep == 'cut':
+                                w.get_slice(i, j, 'items', cut=True)
+                            elif ep == 'child_remove':
+                                w.items[i].remove()
+                            else:
+                                w.put(None, i, 'items')
+                        except Exception as ex:
+                            ctx.tick(None, 'withitems:refused')
+                            continue
+                        ctx.tick(('withitems', src, i, j, ep), 'withitems:' + ep)
+                        want = ast.parse(src)
+                        ww = want.body[0].body[0] if pre else want.body[0]
+                        del ww.items[i:j]
+                        try:
+                            got_src = canon(ast.parse(m.src))
+                        except SyntaxError as ex:
+                            got_src = ('SyntaxError', str(ex))
+                        if canon(m.a) != canon(want) or got_src != canon(want):
+                            ctx.violation(f'With.items|structure|{ep}', 'resulting structure differs from old[:start] + old[stop:] (rest of tree unchanged)',
+                                          {**desc, 'result_src': m.src, 'expected': ast.unparse(want), 'live_equals_expected': canon(m.a) == canon(want), 'reparsed_equals_expected': got_src == canon(want)})
+    # (b)
+    cases = [('import asab as a', 'names[0]', 'asname'), ('import asyncio as a', 'names[0]', 'asname'), ('from m import has as s', 'names[0]', 'asname'), ('import a.b as c', 'names[0]', 'asname'),
+             ('import x as asx, asy as y', 'names[1]', 'asname'), ('from . import (has  as \\\n  s, t)', 'names[0]', 'asname'), ('import asas', 'names[0]', 'asname'), ('import a as b', 'names[0]', 'name'),
+             ('from asm import basic as c', 'names[0]', 'name'), ('from asm import basic as c', '', 'module')]
+    for src, path, fld in cases:
+        for newv in ('zz', 'as_', None):
+            if newv is None and fld != 'asname':
+                continue
+            for how in ('attr', 'put'):
+                m = fst.FST(src, 'exec')
+                node = m.body[0] if not path else eval('m.body[0].' + path, {'m': m})
+                old = getattr(node.a, fld)
+                if old == newv:
+                    continue
+                desc = {'src': src, 'node': path, 'field': fld, 'old': old, 'new': newv, 'how': how}
+                try:
+                    if how == 'attr':
+                        setattr(node, fld, newv)
+                    else:
+                        node.put(newv, fld)
+                except Exception as ex:
+                    ctx.tick(None, 'names:refused')
+                    continue
+                ctx.tick(('names', src, path, fld, newv, how), 'names:' + fld)
+                want = ast.parse(src)
+                wn = want.body[0] if not path else eval('w.body[0].' + path, {'w': want})
+                setattr(wn, fld, newv)
+                try:
+                    got_src = canon(ast.parse(m.src))
+                except SyntaxError as ex:
+                    got_src = ('SyntaxError', str(ex))
+                if canon(m.a) != canon(want) or got_src != canon(want):
+                    ctx.violation(f'alias.{fld}|structure', 'setting one primitive field changed something else (or the source does not say what the tree says)',
+                                  {**desc, 'result_src': m.src, 'expected': ast.unparse(want)})
+
+
 def run(ctx: Ctx):
     ctx.rule = ('(1) exhaustive small-domain + random 64-bit argument tuples for the translated index functions, model (vm_compute) vs '
                 'real function vs Python list; (2) random FSTView op sequences, model vs real, distinct = (field kind, op-name sequence, '
@@ -681,6 +769,7 @@ def run(ctx: Ctx):
     run_guarded(ctx, stage_api)
     run_guarded(ctx, stage_orelse_sweep)
     run_guarded(ctx, stage_split_fields)
+    run_guarded(ctx, stage_with_items_and_names)
 
 
 def replay(path):
